@@ -6,6 +6,7 @@ report it in /verif/seeded/RESULTS.json.
 
   tools/seeded_run_all.py            # all stored changes
   tools/seeded_run_all.py C26a C09b  # only these (results merged into the file)
+  tools/seeded_run_all.py --narrow   # each change against its own check and the checks that reported it last time
 """
 import json
 import os
@@ -19,11 +20,14 @@ RESULTS = os.path.join(SEEDED, 'RESULTS.json')
 
 
 def main():
-    ids = sys.argv[1:] or sorted(d for d in os.listdir(SEEDED) if os.path.isdir(os.path.join(SEEDED, d)))
+    args = [a for a in sys.argv[1:] if not a.startswith('--')]
+    narrow = '--narrow' in sys.argv   # only the seed's own check and the checks that reported it last time
+    ids = args or sorted(d for d in os.listdir(SEEDED) if os.path.isdir(os.path.join(SEEDED, d)))
     res = json.load(open(RESULTS)) if os.path.exists(RESULTS) else {}
     for sid in ids:
         prop = sid[:3]
-        r = se.detect(prop, os.path.join(SEEDED, sid, 'patch.diff'), everything=True)
+        only = sorted(set(res.get(sid, {}).get('detected_by', []) + [prop])) if narrow else None
+        r = se.detect(prop, os.path.join(SEEDED, sid, 'patch.diff'), everything=not narrow, only=only)
         if 'apply_error' in r:
             res[sid] = {'property': prop, 'error': 'patch does not apply to /repo: ' + r['apply_error'][:200]}
             print(sid, 'APPLY-ERROR')
